@@ -412,11 +412,11 @@ func ipv4AddrsDecoder(r io.Reader, val interface{}, _ *[8]byte,
 			// Each address needs its own backing array, as the
 			// TCPAddr below keeps a slice of it.
 			var ip [4]byte
-			_, err := r.Read(ip[:])
+			_, err := io.ReadFull(r, ip[:])
 			if err != nil {
 				return err
 			}
-			_, err = r.Read(port[:])
+			_, err = io.ReadFull(r, port[:])
 			if err != nil {
 				return err
 			}
@@ -494,11 +494,11 @@ func ipv6AddrsDecoder(r io.Reader, val interface{}, _ *[8]byte,
 			// Each address needs its own backing array, as the
 			// TCPAddr below keeps a slice of it.
 			var ip [16]byte
-			_, err := r.Read(ip[:])
+			_, err := io.ReadFull(r, ip[:])
 			if err != nil {
 				return err
 			}
-			_, err = r.Read(port[:])
+			_, err = io.ReadFull(r, port[:])
 			if err != nil {
 				return err
 			}
@@ -586,11 +586,11 @@ func torV3AddrsDecoder(r io.Reader, val interface{}, _ *[8]byte,
 			p        [2]byte
 		)
 		for len(addrs) < numAddrs {
-			_, err := r.Read(ip[:])
+			_, err := io.ReadFull(r, ip[:])
 			if err != nil {
 				return err
 			}
-			_, err = r.Read(p[:])
+			_, err = io.ReadFull(r, p[:])
 			if err != nil {
 				return err
 			}
